@@ -297,27 +297,64 @@ def _parity(e, x, env):
     return None
 
 
+class ParityDomain:
+    pass
+
+
+def _parity_domain():
+    from ..absint import Domain
+
+    class _P(Domain):
+        """'odd' / 'even' in the stress argument; None = unknown"""
+
+        def const(self, c):
+            return "even"
+
+        def self_attr(self, attr, node):
+            return "even"
+
+        def join(self, a, b):
+            return a if a == b else None
+
+        def binop(self, op, a, b, node):
+            if a is None or b is None:
+                return None
+            if isinstance(op, (ast.Add, ast.Sub)):
+                return a if a == b else None
+            if isinstance(op, (ast.Mult, ast.Div)):
+                return "even" if a == b else "odd"
+            if isinstance(op, ast.Pow):
+                if a == "even":
+                    return "even"
+                k = const_value(node.right) if isinstance(node, ast.BinOp) else None
+                return ("odd" if k % 2 else "even") if isinstance(k, int) else None
+            return None
+
+        def unaryop(self, op, a, node):
+            return a
+
+        def call(self, fn, args, kwargs, node, interp, env):
+            if fn in ("np.fabs", "np.abs", "abs", "np.absolute") and args:
+                return "even" if args[0] in ("odd", "even") else None
+            if fn in ("np.sign", "np.asarray", "np.array", "float", "np.float64", "np.negative") and args:
+                return args[0]
+            if fn in ("np.power", "np.float_power") and len(args) == 2:
+                return "even" if args[0] == "even" and args[1] == "even" else None
+            if fn in ("np.sqrt", "np.exp", "np.log", "np.log10", "np.cos", "np.cosh") and args:
+                return "even" if args[0] == "even" else None
+            return NotImplemented
+
+        def method(self, recv, name, args, kwargs, node):
+            return recv if name in ("astype", "copy") else None
+    return _P()
+
+
 def _method_parity(prog, ci, name, known):
+    """parity of a method of the law in its stress argument, by abstract interpretation (locals, re-bound parameters,
+    helper methods such as _get_abs_sign and the other strain methods are followed)"""
+    from ..absint import Interp
     f = prog.lookup_method(ci, name)
-    x = [p for p in f.params if p != "self"][0]
-    env = {"@methods": known}
-    res = None
-    for s in f.node.body:
-        if isinstance(s, ast.Assign):
-            if isinstance(s.targets[0], ast.Name):
-                p = _parity(s.value, x, env)
-                if s.targets[0].id == x and p == "odd":
-                    continue
-                env[s.targets[0].id] = p
-            elif isinstance(s.targets[0], ast.Tuple) and isinstance(s.value, ast.Call) and \
-                    (call_name(s.value) or "") == "self._get_abs_sign":
-                pa = _parity(s.value.args[0], x, env)
-                a, b = s.targets[0].elts
-                env[a.id] = "even" if pa in ("odd", "even") else None
-                env[b.id] = pa
-        elif isinstance(s, ast.Return):
-            res = _parity(s.value, x, env)
-    return res
+    return Interp(prog, _parity_domain()).run(f, ["odd"])
 
 
 def _ramberg(ctx):
@@ -372,19 +409,23 @@ def _ramberg(ctx):
                          rule="R-C16-7", text="guard " + norm_text(c_))
         else:
             ctx.holds(f, gd, "lower_hysteresis only rejects stress > max_stress: defined at the reversal point", rule="R-C16-7")
-    # delta_stress mirrored
+    # delta_stress mirrored (symbolic value; temporaries and keyword/positional call forms do not matter)
+    from ..absint import Interp as _I, TermDomain as _T, term_to_nf as _tnf
     f = prog.lookup_method(ci, "delta_stress")
     r = [x for x in f.node.body if isinstance(x, ast.Return)][-1]
     p = f.params[1]
     v = r.value
-    ok = isinstance(v, ast.BinOp) and isinstance(v.op, ast.Mult) and const_value(v.left) == 2 and isinstance(v.right, ast.Call) \
-        and is_self_attr(v.right.func, "stress")
-    if ok:
-        a = v.right.args[0] if v.right.args else next(k.value for k in v.right.keywords if k.arg == "strain")
-        try:
-            ok = to_nf(a) == to_nf(parse_expr("%s/2" % p))
-        except NFUnsupported:
-            ok = False
+    tv = _I(prog, _T(), follow=lambda c_: False).run(f, [("p", p)])
+    ok = False
+    if isinstance(tv, tuple) and len(tv) == 4 and tv[:2] == ("op", "*"):
+        two = [z for z in (tv[2], tv[3]) if z in (("c", 2), ("c", 2.0))]
+        call_ = [z for z in (tv[2], tv[3]) if isinstance(z, tuple) and z[:1] == ("m",) and z[2] == "stress"]
+        if two and call_:
+            arg = call_[0][3][0] if call_[0][3] else dict(call_[0][4]).get("strain")
+            try:
+                ok = arg is not None and _tnf(arg, lambda z: "D" if z == ("p", p) else None) == to_nf(parse_expr("D/2"))
+            except NFUnsupported:
+                ok = False
     if ok:
         ctx.holds(f, r, "delta_stress(D) == 2 stress(D/2)", rule="R-C16-7")
     else:
@@ -401,11 +442,12 @@ def _ramberg(ctx):
             ctx.violated(f, f.node, "%s has parity %s; the Ramberg-Osgood strain must be odd in the stress" % (name, p),
                          rule="R-C16-7", text="%s parity" % name)
     f = prog.lookup_method(ci, "tangential_compliance")
-    x = f.params[1]
-    ab = [st_ for st_ in f.node.body if isinstance(st_, ast.Assign) and isinstance(st_.targets[0], ast.Name) and st_.targets[0].id == x
-          and isinstance(st_.value, ast.Call) and call_name(st_.value) in ("np.abs", "np.fabs", "abs")]
-    if ab:
-        ctx.holds(f, ab[0], "compliance is evaluated on |stress| (even extension of the derivative)", rule="R-C16-7")
+    pc = _method_parity(prog, ci, "tangential_compliance", known)
+    if pc == "even":
+        ctx.holds(f, f.node, "compliance is evaluated on |stress| (even extension of the derivative)", rule="R-C16-7")
+    elif pc == "odd":
+        ctx.violated(f, f.node, "compliance is odd in the stress, it is not evaluated on |stress|: negative stresses would give a "
+                     "wrong derivative", rule="R-C16-7", text="compliance abs")
     else:
         ctx.violated(f, f.node, "compliance is not evaluated on |stress|: negative stresses would give a wrong derivative",
                      rule="R-C16-7", text="compliance abs")
